@@ -14,7 +14,7 @@ func init() {
 	property("C02",
 		"Static conformance of the condition mechanism: (a) the operator negation table is the De Morgan / comparison-complement table and an involution; (b) var comparisons render goto_if_<cc> for exactly the accepted operator set, closed under negation, with compare vs compare_var_to_value chosen by the value() marker; (c) flag / defeated comparisons branch on 'set' exactly for (==,TRUE) or (!=,FALSE); (d) the leaf defaults stored by the parser for bare, negated and explicit forms; (e) the short-circuit wiring of leaf / && / || chunks (value-origin templates); (f) binary operators stored in the AST are && or || (or their negation) of the token that was tested; (g) the precedence shape: the right operand of && is a single operand, continuation goes through the right-side parser, and the right-side parser is only entered when more than one operand is allowed; (h) negation is distributed to every sub-expression, leaf and operator exactly under the negated flag.",
 		[]string{"oracle: README operator semantics and the goto_if_* mnemonics of the decomp script macros", "scheme argument of DESIGN §4 C02; the recursive descent as a whole accepting exactly the documented grammar is not decided"},
-		"C02.a", "C02.b", "C02.c", "C02.d", "C02.e", "C02.f", "C02.g", "C02.h")
+		"C02.a", "C02.b", "C02.c", "C02.d", "C02.e", "C02.f", "C02.g", "C02.h", "C02.i")
 
 	register(&Rule{ID: "C02.a", Doc: "negation table of boolean/comparison operators", Floor: 9, Run: c02a})
 	register(&Rule{ID: "C02.b", Doc: "var comparison rendering table and compare mnemonic; operator domain closure", Floor: 9, Run: c02b})
@@ -24,6 +24,7 @@ func init() {
 	register(&Rule{ID: "C02.f", Doc: "binary operator stored is the tested &&/|| token (negated under the flag)", Floor: 2, Run: c02f})
 	register(&Rule{ID: "C02.g", Doc: "precedence shape of the recursive descent", Floor: 5, Run: c02g})
 	register(&Rule{ID: "C02.h", Doc: "De Morgan distribution of the negated flag", Floor: 6, Run: c02h})
+	register(&Rule{ID: "C02.i", Doc: "branch objects are immutable after construction", Floor: 6, Run: c02i})
 }
 
 // constReturnTable: for a function whose returns are constants (or its parameter) guarded
@@ -756,4 +757,27 @@ func edgeInfeasible(c *Ctx, fn *ssa.Function, pred, succ *ssa.BasicBlock) bool {
 		return false
 	}
 	return hasLit(pc.Must(pred), negLit(lit))
+}
+
+// c02i: the branch descriptors built by the constructors are never modified afterwards:
+// no function writes a field of jump / breakContext / leafExpressionBranch /
+// conditionDestination / switchBranch / switchCaseBranch through anything but the fresh
+// allocation it is initialising. (What a chunk does is fixed when it is created; a later
+// "optimisation" pass over the descriptors would escape the constructor templates.)
+func c02i(c *Ctx) {
+	eff := c.Eff()
+	for _, typ := range []string{"jump", "breakContext", "leafExpressionBranch", "conditionDestination", "switchBranch", "switchCaseBranch"} {
+		bad := ""
+		for _, fn := range c.W.FuncsOf("emitter") {
+			if isTestFunc(c.W, fn) {
+				continue
+			}
+			for k, site := range eff.sites[fn] {
+				if strings.HasPrefix(k, "emitter."+typ+".") {
+					bad = c.W.FuncKey(fn) + " writes " + k + " at " + c.W.Pos(site.Pos())
+				}
+			}
+		}
+		c.Check(bad == "", "immutable/"+typ, "emitter/branch.go", typ+" values are only written while they are being constructed", "a "+typ+" is modified after construction: "+bad+" (the wiring established by the constructors could be altered)")
+	}
 }
